@@ -107,8 +107,14 @@ def check(run):
     sp = os.path.join(wd, "traffic.stim.ndjson")
     out = os.path.join(wd, "traffic.log.ndjson")
     write_ndjson(sp, traffic)
-    vlib.run_bin("h_once", ["traffic", sp, out], timeout=1800)
-    recs = read_ndjson(out)
+    recs, crashes = vlib.run_stimuli("h_once", "traffic", sp, out, timeout=1800)
+    if crashes:
+        # a crash of the code under test inside a traffic run: the API judge sees a run that did not terminate
+        cp = os.path.join(wd, "traffic.crashed.ndjson")
+        crashed_ids = {r.get("id") for r in recs if r["ev"] == "abort"}
+        write_ndjson(cp, [dict(oc.API_DEF, **{k: r[k] for k in r if k in ("ev", "id", "outcome", "pool_len", "panics")})
+                          for r in recs if r["ev"] in ("reset", "end") and r.get("id") in crashed_ids])
+        c05.judge_api(run, wd, "traffic-crashes", {"api": cp})
     p = oc.split_logs(recs, wd, "traffic")
     judge_rc11(run, wd, "traffic", p["rc11"], "Trace_OnceRC11_traffic.cfg")
     run.cov["traffic_runs"] = tn
